@@ -29,3 +29,4 @@ open Lungo.StreamTS
 #print axioms lost_position_explicit_fails_for_nil_last
 #print axioms start_time_before_oplog_skips_silently
 #print axioms single_consumer_needed
+#print axioms mem_expected
